@@ -54,7 +54,7 @@ NODE_CLASSES = {"Node": Node, "EqNode": nodes.EqNode, "FalsyNode": nodes.FalsyNo
 
 # names that are not plain strings, or whose text needs care: equal-but-different numbers, str subclasses with their own
 # __str__, text that cannot be encoded (lone surrogates, as produced by the 'surrogateescape' handler for file names)
-EXOTIC_NAMES = [{"float": "0.0"}, {"float": "-0.0"}, {"dec": "1.0"}, {"dec": "1.00"}, {"bool": True}, {"int": 1}, {"tag": 'q"x'}, {"tag": "plain"}, "plain", "caf\udce9", "caf\udce8", "caf?", {"float": "1e+22"}, {"none": 1}, {"winpath": 'C:\\data\\q"x'}, {"list": ["it's", 'a"b', "c\\d"]}]
+EXOTIC_NAMES = [{"float": "0.0"}, {"float": "-0.0"}, {"dec": "1.0"}, {"dec": "1.00"}, {"bool": True}, {"int": 1}, {"tag": 'q"x'}, {"tag": "plain"}, "plain", "caf\udce9", "caf\udce8", "caf?", {"float": "1e+22"}, {"none": 1}, {"winpath": 'C:\\data\\q"x'}, {"list": ["it's", 'a"b', "c\\d"]}, {"bytes": "plain"}, {"bytes": "caf\u00e9"}, {"bytes": "caf\u00e8"}, {"bytearray": "plainer"}]
 
 
 def decode_name(spec):
@@ -76,6 +76,10 @@ def decode_name(spec):
         return pathlib.PureWindowsPath(spec["winpath"])
     if "list" in spec:
         return list(spec["list"])
+    if "bytes" in spec:
+        return spec["bytes"].encode("latin-1")
+    if "bytearray" in spec:
+        return bytearray(spec["bytearray"].encode("latin-1"))
     raise ValueError(spec)
 
 
